@@ -107,6 +107,18 @@ func (fa *ForAll) OnAccept(fn *ssa.Function, acc Accept) mpResult {
 	var loopDetails []string
 	q := &MustPass{P: fa.P, Exempt: fa.Spec.Exempt}
 	q.Match = func(a Atom) bool {
+		// the loop may sit in a search helper that returns the index of the first offender: "nothing found" establishes
+		// the fact for every element if every iteration that does not return an index passes the body obligation
+		if sc, ok := searchMissed(a); ok {
+			if g := staticCallee(sc); g != nil {
+				var m forAllMemo
+				bindCall(sc, g, func() { m = fa.inFn(g, AcceptNegInt(0)) })
+				if m.found && !m.holds {
+					loopDetails = append(loopDetails, m.detail)
+				}
+				return m.holds
+			}
+		}
 		c, _ := callAndResult(a.V)
 		if c == nil {
 			return false
